@@ -327,6 +327,10 @@ def api_cases(thorough):
             for layers in ("none", "one-mean"):
                 for res in (2, 4):
                     yield dict({"kind": "api", "data": "spread", "limits": limits, "log": "lin", "res": res, "layers": layers, "xy": datasets["spread"]}, **xform)
+    for mixed in ("int-then-float", "f4-then-f8", "float-then-int", "bool-then-float"):
+        for limits in ("auto", "explicit"):
+            for layers in ("two-mixed", "call-mean", "layer-sum-call-mean"):
+                yield {"kind": "api", "data": "spread", "limits": limits, "log": "lin", "res": 4, "layers": layers, "xy": datasets["spread"], "mixed": mixed}
     # element types of the data: float32 and integer coordinates and weights (all values exactly representable)
     for dt in ("f4", "i8", "i4"):
         xy = datasets["spread"] if dt == "f4" else ([1, 2, 3, 3, 4], [10, 20, 20, 40, 80])
@@ -349,6 +353,15 @@ def run_api_case(acc, idx, c):
     x, y = A_(xs.astype(dt), unit="cm", name="x"), A_(ys.astype(dt), unit="g", name="y")
     v1 = A_(np.arange(1.0, len(xs) + 1).astype(dt), unit="K", name="v1")
     v2 = A_((np.arange(1.0, len(xs) + 1) * 100).astype(dt), unit="s", name="v2")
+    if c.get("mixed"):
+        # layers of different element types in one call: each layer is binned with its own values
+        t1, t2 = {"int-then-float": (np.int64, np.float64), "f4-then-f8": (np.float32, np.float64), "float-then-int": (np.float64, np.int32),
+                  "bool-then-float": (np.bool_, np.float64)}[c["mixed"]]
+        a1 = np.arange(1.0, len(xs) + 1)
+        a1 = (a1 % 2 == 1) if t1 is np.bool_ else a1.astype(t1)
+        a2 = np.arange(1.0, len(xs) + 1) * 100 + (0.5 if t2 is np.float64 else 0.0)
+        v1 = A_(a1, unit="K" if t1 is not np.bool_ else "dimensionless", name="v1")
+        v2 = A_(a2.astype(t2), unit="s", name="v2")
     kw = {}
     ex = None
     if c["limits"].startswith("explicit") or c["limits"] == "half":
@@ -478,7 +491,7 @@ def run_api_case(acc, idx, c):
     if c["limits"] == "auto" and any(None in o and len(o) == 1 for o, f in zip(opts, finite) if f):
         acc.violation("C05:histogram2d-automatic-range-excludes-a-finite-point", idx, c, {"xedges": xe.tolist(), "yedges": ye.tolist()})
         return "violation"
-    vals = [np.ones(len(xs))] if not layers else [np.arange(1.0, len(xs) + 1), np.arange(1.0, len(xs) + 1) * 100][:nlay]
+    vals = [np.ones(len(xs))] if not layers else [np.asarray(v1.values, dtype=float), np.asarray(v2.values, dtype=float)][:nlay]
     ops = ops or ["sum"]
     ok = False
     for combo in itertools.product(*opts):
